@@ -2,6 +2,7 @@ package props
 
 import (
 	"fmt"
+	"github.com/go-kid/ioc/container/processors"
 	"sort"
 	"strings"
 
@@ -106,6 +107,22 @@ type c6Neutral struct {
 
 func (n *c6Neutral) Naming() string { return n.Nm }
 
+// c6Proc is a user post-processor with an injection point of its own: the container creates it
+// (and what it needs) while the processor chain is still being assembled, in Order position.
+type c6Proc struct {
+	processors.DefaultComponentPostProcessor
+	Dep *c6Peer `wire:"p0"`
+}
+
+func (*c6Proc) Naming() string { return "zz-c6proc" }
+
+type c6ProcOrdered struct {
+	c6Proc
+	o int
+}
+
+func (p *c6ProcOrdered) Order() int { return p.o }
+
 // c6Z collects zero-size components (all of them live at one address, yet each is a component).
 type c6Z struct {
 	All []scen.IZ `wire:",required=false"`
@@ -150,16 +167,17 @@ func c6Pred(kind string) func(t string) bool {
 }
 
 type c06Case struct {
-	Pop     []scen.Inst `json:"population"`
-	Kind    string      `json:"required_kind,omitempty"` // "": the all-optional consumer
-	Desc    bool        `json:"descending_order,omitempty"`
-	Mode    int         `json:"mode,omitempty"`
-	Bound   int         `json:"bound,omitempty"`
-	Choices []int       `json:"choices,omitempty"`
-	Neutral int         `json:"neutral_mask,omitempty"`   // family "peers": holders of the same points that provide nothing (bit 0: named to sort first, bit 1: last)
-	Peers   []string    `json:"peer_names,omitempty"`     // family "peers": names of the c6Peer holders ("" = default name)
-	Zero    int         `json:"zero_size_mask,omitempty"` // family "zero-size": which of Z1,Z2,Z3 are registered
-	Sealed  int         `json:"sealed_mask,omitempty"`    // family "sealed": which of TS1,TS2 (implementers of a sealed interface) are registered
+	Pop       []scen.Inst `json:"population"`
+	Kind      string      `json:"required_kind,omitempty"` // "": the all-optional consumer
+	Desc      bool        `json:"descending_order,omitempty"`
+	Mode      int         `json:"mode,omitempty"`
+	Bound     int         `json:"bound,omitempty"`
+	Choices   []int       `json:"choices,omitempty"`
+	ProcOrder int         `json:"processor_order,omitempty"` // family "peers": a user post-processor depending on peer p0, Ordered with this Order (-1: unordered)
+	Neutral   int         `json:"neutral_mask,omitempty"`    // family "peers": holders of the same points that provide nothing (bit 0: named to sort first, bit 1: last)
+	Peers     []string    `json:"peer_names,omitempty"`      // family "peers": names of the c6Peer holders ("" = default name)
+	Zero      int         `json:"zero_size_mask,omitempty"`  // family "zero-size": which of Z1,Z2,Z3 are registered
+	Sealed    int         `json:"sealed_mask,omitempty"`     // family "sealed": which of TS1,TS2 (implementers of a sealed interface) are registered
 }
 
 func c06Pops(variants [][]string, yield func([]scen.Inst) bool) {
@@ -239,6 +257,13 @@ func c06Gen(c *core.Ctx) func(yield func(c06Case) bool) {
 					for neutral := 0; neutral < 4; neutral++ {
 						if ok = yield(c06Case{Pop: others, Peers: peers, Desc: desc, Neutral: neutral}); !ok {
 							return
+						}
+					}
+					if peers[0] == "p0" {
+						for _, po := range []int{-1, 1, 3, 5, 9} {
+							if ok = yield(c06Case{Pop: others, Peers: peers, Desc: desc, ProcOrder: po}); !ok {
+								return
+							}
 						}
 					}
 				}
@@ -335,6 +360,11 @@ func c06Run(c *core.Ctx) {
 					user[pn] = true
 				}
 			}
+			if cs.ProcOrder == -1 {
+				comps = append(comps, &c6Proc{})
+			} else if cs.ProcOrder != 0 {
+				comps = append(comps, &c6ProcOrdered{o: cs.ProcOrder})
+			}
 			var neutrals []*c6Neutral
 			for bit, nm := range []string{"0-neutral", "zz-neutral"} {
 				if cs.Neutral>>bit&1 == 1 {
@@ -402,7 +432,7 @@ func c06Run(c *core.Ctx) {
 			cc := cs
 			cc.Choices = ch.Choices()
 			key := func(kind string) string {
-				return "C06/" + kind + "/" + core.Hash(cs.Pop, cs.Kind, cs.Desc, cs.Peers, cs.Zero, cs.Sealed, cs.Neutral, cc.Choices)
+				return "C06/" + kind + "/" + core.Hash(cs.Pop, cs.Kind, cs.Desc, cs.Peers, cs.Zero, cs.Sealed, cs.Neutral, cs.ProcOrder, cc.Choices)
 			}
 			adm := func(kind string) []string {
 				pred := c6Pred(kind)
@@ -493,6 +523,46 @@ func c06Run(c *core.Ctx) {
 				}
 				c.Outcome(fmt.Sprintf("peers/ok/%d", len(peers)))
 				i1 := adm("F1")
+				if cs.ProcOrder > 0 && cs.ProcOrder < 5 {
+					// the processor is created before the built-in wiring processors are all in place,
+					// and so are the peers it needs: which candidate such an early component receives is
+					// not fixed, but it is never its own holder and never anything inadmissible
+					for _, h := range peers {
+						adm1 := map[string]bool{}
+						admP := map[string]bool{}
+						for _, q := range peers {
+							if q != h {
+								adm1[q.Id], admP[q.Id] = true, true
+							}
+						}
+						for _, x := range i1 {
+							adm1[x] = true
+						}
+						sound := func(field string, got []string, adm map[string]bool) bool {
+							seen := map[string]bool{}
+							for _, g := range got {
+								if g == "-" {
+									continue
+								}
+								if g == h.Id {
+									c.Report(key("self-"+field), "self-injection", fmt.Sprintf("%s holds its own holder (the holder is created while a user post-processor with Order %d is being created)", field, cs.ProcOrder), cc)
+									return false
+								}
+								if !adm[g] || seen[g] {
+									c.Report(key("unsound-"+field), "unsound", fmt.Sprintf("%s holds %v, admissible (each at most once): %v", field, got, adm), cc)
+									return false
+								}
+								seen[g] = true
+							}
+							return true
+						}
+						if !(sound(h.Id+".Peers", scen.IdsOf(h.Peers), adm1) && sound(h.Id+".Sibs", scen.IdsOf(h.Sibs), admP) &&
+							sound(h.Id+".Next", []string{scen.IdOf(h.Next)}, admP) && sound(h.Id+".Partner", []string{scen.IdOf(h.Partner)}, adm1)) {
+							return
+						}
+					}
+					return
+				}
 				for _, h := range peers {
 					var otherPeers, wantI1 []string
 					for _, q := range peers {
